@@ -1485,6 +1485,9 @@ class Backend:
             m = regex.search(arg)
             while m is not None:
                 index = int(m.group(1))
+                if index >= len(output_list):
+                    raise MesonException(f'Generator arguments cannot have @OUTPUT{index}@ '
+                                         f'since there are only {len(output_list)} outputs')
                 src = f'@OUTPUT{index}@'
                 arg = arg.replace(src, os.path.join(private_dir, output_list[index]))
                 m = regex.search(arg)
